@@ -18,6 +18,7 @@ import (
 // debug off, allowed origin, safelisted ACRM; approved <=> ok status (and ACAH reflecting the lines).
 func acrhHandler(names []string) http.Handler {
 	m, err := cors.NewMiddleware(cors.Config{Origins: []string{"https://example.com"}, RequestHeaders: names})
+	noise(m)
 	if err != nil {
 		fatal("NewMiddleware(%q): %v", names, err)
 	}
